@@ -243,7 +243,7 @@ PROPS = {
         "thorough": [fam("lifecycle", "asan")],
         "leanchecker": ["MeddlyModel.State.Lifecycle"],
         "level_text": "Deterministic Lifecycle state machine (running flag, domains, forests with FIDs, edges with attachment, iterators, built operations, live cache entries by the forests they mention) whose step function gives the outcome of every API call including the error codes. Theorems for every reachable state / every op list: FIDs strictly increase within one initialisation and are never reused, destroying a forest or domain detaches exactly the edges attached to the affected forests, purges every operation and cache entry mentioning them and leaves everything of other domains untouched, any use of a detached edge errors without changing state, cleanup returns to the initial state, init/cleanup can be repeated. Tie: random create/destroy histories (<=3 domains, <=6 forests, <=20 heap-allocated edges, iterators, cross-forest operations filling the compute table, all CT configurations, repeated init/cleanup) with the full observable state (attachment and table of every edge, registered edge counts, FIDs, surviving operations, stale entry types, live cache entries per forest set, error codes) compared with the model after EVERY step.",
-        "level_note": "Function contents are not predicted by this model (tables must be unchanged unless the step writes the edge). Freed-memory accesses are visible only in the ASan flavour (thorough tier). Three genuine defects are exhibited by forked probes: iterator on a detached edge (repaired by a fix: commit), re-initialisation with an operation-style table, use-after-free in removeAllComputeTableEntries after destroying a forest of a cross-forest operation (both recorded in known_findings.jsonl; the generator steers around their triggers).",
+        "level_note": "Function contents are not predicted by this model (tables must be unchanged unless the step writes the edge). Freed-memory accesses are visible only in the ASan flavour (thorough tier). The three genuine defects this family found - iterator on a detached edge, a rejected second initialize() clobbering the running library's table settings, use-after-free in removeAllComputeTableEntries after destroying a forest of a cross-forest operation - are repaired in /repo (fix: 94192d1, 03d5ed0, aaeaaa0); their forked probes run on every check (the third with M_PERTURB so that a plain build dies on the stale loop as the ASan build does) and the generator no longer avoids the step.",
         "technique": "Lean 4 proof (invariants by induction over op lists of a deterministic state machine) + step-by-step differential run",
         "partial": ["iterator surviving cleanup+initialize not exercised (not documented as legal)", "lazy physical removal of dead cache entries treated as destroyed"],
     },
@@ -608,10 +608,11 @@ PROPS = {
                    're-read, result and relation forests certified after the calls; plus the exhaustive tier: all 16 relations x 4 initial sets on a 2-state '
                    'domain x every algorithm x both directions x 15 forest combinations.',
      'level_note': 'The decision-diagram recursion of saturation (saturate_1 / recFire, their compute-table entries, the explorer objects) is NOT modelled: for '
-                   'saturation the theorems cover the split and scheduling independence, the rest is the differential tie. Known defects of the library (F4 stale '
-                   'satfire entries, F5 quasi-reduced relation forests, F7 fully-reduced relation forests with off-diagonal edges over the common diagonal, F8 '
-                   'NOFS with a non-fully-reduced MT-integer result forest, F9 BFS with the initial set in another forest than the result, F10 saturation on '
-                   'MT-integer sets with a distance-0 state; F6 is auto-detected) are steered around by the generator (harness option --allow lifts the steering) '
+                   'saturation the theorems cover the split and scheduling independence, the rest is the differential tie. Of the defects the family found, F4 (stale satfire entries), F6, F8 (NOFS with a '
+                   'non-fully-reduced MT-integer result forest), F9 (BFS with the initial set in another forest than the result) and F10 (saturation on MT-integer sets '
+                   'with a distance-0 state) are repaired in /repo (fix: commits) and run unsteered (--allow F4,F8,F9,F10); the two that remain recorded - F5 '
+                   'quasi-reduced relation forests, F7 fully-reduced relation forests with off-diagonal edges over the common diagonal - are steered around by the '
+                   'generator (harness option --allow lifts the steering) '
                    "and re-probed on every run in forked children at cases 900000+; the probes' diffs are matched by known_findings.jsonl. The steering predicates "
                    '(f6Trigger, f7Trigger in harness/fam_reach.cc) are themselves validated on every run: outside them every saturation result must match the '
                    'specification.',
@@ -668,10 +669,11 @@ PROPS = {
      'level_note': 'Tree-level theorems cover forests without identity-reduced positions (all set forests); for RELATION forests only the function-level '
                    'decomposition of the variable swap into four level swaps is proved (relSwap_four_level_swaps_partial) and for EV+ nothing at tree level: those '
                    'are tied to the specification by the differential run alone. Which schedule a heuristic takes is not predicted (node-count / '
-                   'rand()-dependent); lowest_memory is not an inversions-only schedule, its final order is only observed. Known findings reproduced by dedicated '
-                   'probe cases 0..10 and steered away from in the main cases: F3 (var2level overflow in six heuristics; ASan), LSW (policies::isLevelSwap typo: '
-                   'LEVEL swap is a silent no-op / endless loop), IDSZ (variable swap in a relation forest between adjacent variables of different sizes: '
-                   'functions change; main cases give relation forests uniform sizes).',
+                   'rand()-dependent); lowest_memory is not an inversions-only schedule, its final order is only observed. The three defects the family found - F3 (var2level overflow in six heuristics), LSW '
+                   '(policies::isLevelSwap typo: LEVEL swap a silent no-op / endless loop), IDSZ (variable swap in a relation forest between adjacent variables of '
+                   'different sizes changed functions) - are repaired in /repo (fix: bacd83c, 9f8e485, aee3c18); their probe cases 0..10 still run on every check and '
+                   'the pre-probes that used to switch the steering on now find the library sound, so the main cases use every heuristic, LEVEL swaps and relation '
+                   'forests over mixed sizes.',
      'technique': 'Lean 4 proof (inversion counting; induction on positions; canonicity) + differential correspondence over permutations x heuristics with '
                   'verified certificates of the reordered node store',
      'partial': ['relations: tree-level swap not modelled (function level + differential)',
